@@ -19,7 +19,7 @@ SeqLE(a, b) == a = b \/ SeqLT(a, b)
 
 IsPrefixOf(p, s) == Len(p) <= Len(s) /\ \A i \in 1..Len(p) : s[i] = p[i]
 IsPrefixAt(p, s, at) == at + Len(p) - 1 <= Len(s) /\ \A i \in 1..Len(p) : s[at + i - 1] = p[i]
-Sub(s, from, to) == IF to < from THEN <<>> ELSE SubSeq(s, from, to)    \* inclusive, 1-based
+Sub(s, from, to) == LET t == MinI(to, Len(s)) f == MaxI(from, 1) IN IF t < f THEN <<>> ELSE SubSeq(s, f, t)    \* inclusive, 1-based, clipped
 IndexOf(s, x) == IF \E i \in 1..Len(s) : s[i] = x THEN CHOOSE i \in 1..Len(s) : s[i] = x /\ \A j \in 1..(i - 1) : s[j] # x ELSE 0
 SeqRange(s) == {s[i] : i \in 1..Len(s)}
 NoDup(s) == \A i, j \in 1..Len(s) : i # j => s[i] # s[j]
